@@ -48,6 +48,77 @@ def dict_keys_of_returns(fn_node):
     return keys
 
 
+def fjsp_reader_layout(ctx: Ctx, pj):
+    """Reader half of C19.c (also C02.l): parse_job_line reads <n_ops> (<n_eligible> (<machine + 1> <duration>)*)* -- the count at
+    the cursor, machines at cursor+1::2 and durations at cursor+2::2 over 2*count tokens, zipped as (machine, duration), cursor
+    advanced by 1 + 2*count, one iteration per operation."""
+    import ast
+    # token layout, on the value graph: <n_ops> (<n_eligible> (<machine+1> <duration>)*)*
+    itp = vg.Interp(ctx.repo, None, inline_policy=lambda f, a: False)
+    frp = itp.run_function(pj)
+    Lp = frp.locals
+    line_p = vg.mk("param", pj.params()[0])
+
+    def tok(ix):
+        return vg.mk("sub", line_p, ix)
+    # the cursor is the loop-carried local that starts at 1 (token 0 is the number of operations)
+    idx_l = next((v for v in Lp.values() if isinstance(v, vg.S) and v.op == "loop" and vg.is_const(v.args[0], 1)), None)
+    order_r = adv = False
+    why_r = "cursor / slices not recognised"
+    if isinstance(idx_l, vg.S) and idx_l.op == "loop" and vg.is_const(idx_l.args[0], 1):
+        body = idx_l.args[1]
+        lv = [n for n in vg.walk(body) if n.op == "loopvar"]
+        if lv:
+            cur = lv[0]
+            cnt = None
+            for n in vg.walk(body):
+                if nf._fn(n) == "int" and len(n.args) == 2 and n.args[1].op == "sub" and n.args[1].args[0] is line_p and n.args[1].args[1] is cur:
+                    cnt = n
+            if cnt is not None:
+                P2 = nf.Poly.const(2) * nf.Poly.atom(nf.norm(cnt))
+                adv = nf.poly(body) == nf.poly(cur) + nf.Poly.const(1) + P2
+
+                def sl(v):
+                    v = v.args[1] if isinstance(v, vg.S) and v.op == "loop" else v
+                    if isinstance(v, vg.S) and v.op == "sub" and v.args[0] is line_p and v.args[1].op == "slice":
+                        lo, hi, st = v.args[1].args
+                        return nf.poly(lo) - nf.poly(cur), nf.poly(hi) - nf.poly(cur), st
+                    return None
+                # machines / durations are the two operands of the zip the (machine, duration) pairs are built from
+                mv_ = dv_ = None
+                for e in itp.events:
+                    if e.kind == "methcall" and e.data[1] == "append" and e.data[2] and e.data[2][0].op == "comp":
+                        ov_ = [x for x in e.data[2][0].args if isinstance(x, vg.S) and x.op == "over"]
+                        if len(ov_) == 1 and nf._fn(ov_[0].args[0]) == "zip" and len(ov_[0].args[0].args) == 3:
+                            mv_, dv_ = ov_[0].args[0].args[1], ov_[0].args[0].args[2]
+                sm, sd = sl(mv_), sl(dv_)
+                if sm and sd:
+                    # a stride-2 slice over an even token count reads ceil(extent / 2) tokens: the stop may sit on the last token read or one past it
+                    ext_ok = all((x[1] - x[0]) == P2 or (x[1] - x[0]) == P2 - nf.Poly.const(1) for x in (sm, sd))
+                    order_r = sm[0] == nf.Poly.const(1) and sd[0] == nf.Poly.const(2) and ext_ok and \
+                        vg.is_const(sm[2], 2) and vg.is_const(sd[2], 2)
+                # pairs are (machine, duration) over zip(machines, durations)
+                apps = [e for e in itp.events if e.kind == "methcall" and e.data[1] == "append" and e.data[2]]
+                pair_ok = False
+                for e in apps:
+                    c = e.data[2][0]
+                    if c.op == "comp":
+                        ov = [x for x in c.args if isinstance(x, vg.S) and x.op == "over"]
+                        if len(ov) == 1 and nf._fn(ov[0].args[0]) == "zip":
+                            z = ov[0].args[0]
+                            # the comprehension yields (first, second) of the zip in that order
+                            vals_ = [x for x in c.args[1:] if isinstance(x, vg.S) and x.op != "over"]
+                            tup_ = vals_[0] if vals_ else None
+                            pair_ok = tup_ is not None and tup_.op == "tuple" and len(tup_.args) == 2 and all(t_.op == "sub" and t_.args[0].op == "iter" for t_ in tup_.args) and \
+                                vg.is_const(tup_.args[0].args[1], 0) and vg.is_const(tup_.args[1].args[1], 1) and sm is not None and sd is not None
+                order_r = order_r and pair_ok
+                why_r = f"count at idx, machines at idx+1::2, durations at idx+2::2 over 2*count tokens, zipped (machine, duration): {order_r}; cursor += 1 + 2*count: {adv}"
+    loops_p = [n for n in ast.walk(pj.node) if isinstance(n, ast.For)]
+    n_it = [v for v in Lp.values() if isinstance(v, vg.S) and v.op == "iter" and nf._fn(v.args[0]) == "range"]
+    nops_ok = len(loops_p) == 1 and len(n_it) == 1 and len(n_it[0].args[0].args) == 2 and n_it[0].args[0].args[1] is tok(vg.const(0))
+    return order_r, adv, nops_ok, why_r
+
+
 def run(ctx: Ctx):
     no_memoised_readers(ctx)
     dataset_files_in_order(ctx)
@@ -189,67 +260,7 @@ def run(ctx: Ctx):
     plus = order_w_placeholder = None
     minus = any(isinstance(n, ast.Subscript) and "proc_times" in ast.unparse(n.value) and isinstance(n.slice, ast.Tuple) and isinstance(n.slice.elts[0], ast.BinOp)
                 and isinstance(n.slice.elts[0].op, ast.Sub) and isinstance(n.slice.elts[0].right, ast.Constant) and n.slice.elts[0].right.value == 1 for n in ast.walk(r.node))
-    # token layout, on the value graph: <n_ops> (<n_eligible> (<machine+1> <duration>)*)*
-    itp = vg.Interp(ctx.repo, None, inline_policy=lambda f, a: False)
-    frp = itp.run_function(pj)
-    Lp = frp.locals
-    line_p = vg.mk("param", pj.params()[0])
-
-    def tok(ix):
-        return vg.mk("sub", line_p, ix)
-    # the cursor is the loop-carried local that starts at 1 (token 0 is the number of operations)
-    idx_l = next((v for v in Lp.values() if isinstance(v, vg.S) and v.op == "loop" and vg.is_const(v.args[0], 1)), None)
-    order_r = adv = False
-    why_r = "cursor / slices not recognised"
-    if isinstance(idx_l, vg.S) and idx_l.op == "loop" and vg.is_const(idx_l.args[0], 1):
-        body = idx_l.args[1]
-        lv = [n for n in vg.walk(body) if n.op == "loopvar"]
-        if lv:
-            cur = lv[0]
-            cnt = None
-            for n in vg.walk(body):
-                if nf._fn(n) == "int" and len(n.args) == 2 and n.args[1].op == "sub" and n.args[1].args[0] is line_p and n.args[1].args[1] is cur:
-                    cnt = n
-            if cnt is not None:
-                P2 = nf.Poly.const(2) * nf.Poly.atom(nf.norm(cnt))
-                adv = nf.poly(body) == nf.poly(cur) + nf.Poly.const(1) + P2
-
-                def sl(v):
-                    v = v.args[1] if isinstance(v, vg.S) and v.op == "loop" else v
-                    if isinstance(v, vg.S) and v.op == "sub" and v.args[0] is line_p and v.args[1].op == "slice":
-                        lo, hi, st = v.args[1].args
-                        return nf.poly(lo) - nf.poly(cur), nf.poly(hi) - nf.poly(cur), st
-                    return None
-                # machines / durations are the two operands of the zip the (machine, duration) pairs are built from
-                mv_ = dv_ = None
-                for e in itp.events:
-                    if e.kind == "methcall" and e.data[1] == "append" and e.data[2] and e.data[2][0].op == "comp":
-                        ov_ = [x for x in e.data[2][0].args if isinstance(x, vg.S) and x.op == "over"]
-                        if len(ov_) == 1 and nf._fn(ov_[0].args[0]) == "zip" and len(ov_[0].args[0].args) == 3:
-                            mv_, dv_ = ov_[0].args[0].args[1], ov_[0].args[0].args[2]
-                sm, sd = sl(mv_), sl(dv_)
-                if sm and sd:
-                    order_r = sm[0] == nf.Poly.const(1) and sd[0] == nf.Poly.const(2) and sm[1] == nf.Poly.const(1) + P2 and sd[1] == nf.Poly.const(2) + P2 and \
-                        vg.is_const(sm[2], 2) and vg.is_const(sd[2], 2)
-                # pairs are (machine, duration) over zip(machines, durations)
-                apps = [e for e in itp.events if e.kind == "methcall" and e.data[1] == "append" and e.data[2]]
-                pair_ok = False
-                for e in apps:
-                    c = e.data[2][0]
-                    if c.op == "comp":
-                        ov = [x for x in c.args if isinstance(x, vg.S) and x.op == "over"]
-                        if len(ov) == 1 and nf._fn(ov[0].args[0]) == "zip":
-                            z = ov[0].args[0]
-                            # the comprehension yields (first, second) of the zip in that order
-                            vals_ = [x for x in c.args[1:] if isinstance(x, vg.S) and x.op != "over"]
-                            tup_ = vals_[0] if vals_ else None
-                            pair_ok = tup_ is not None and tup_.op == "tuple" and len(tup_.args) == 2 and all(t_.op == "sub" and t_.args[0].op == "iter" for t_ in tup_.args) and \
-                                vg.is_const(tup_.args[0].args[1], 0) and vg.is_const(tup_.args[1].args[1], 1) and sm is not None and sd is not None
-                order_r = order_r and pair_ok
-                why_r = f"count at idx, machines at idx+1::2, durations at idx+2::2 over 2*count tokens, zipped (machine, duration): {order_r}; cursor += 1 + 2*count: {adv}"
-    loops_p = [n for n in ast.walk(pj.node) if isinstance(n, ast.For)]
-    n_it = [v for v in Lp.values() if isinstance(v, vg.S) and v.op == "iter" and nf._fn(v.args[0]) == "range"]
-    nops_ok = len(loops_p) == 1 and len(n_it) == 1 and len(n_it[0].args[0].args) == 2 and n_it[0].args[0].args[1] is tok(vg.const(0))
+    order_r, adv, nops_ok, why_r = fjsp_reader_layout(ctx, pj)
     # writer
     itw = vg.Interp(ctx.repo, None, inline_policy=lambda f, a: False)
     itw.run_function(w)
